@@ -1,0 +1,131 @@
+//go:build verif
+
+// Contracts for package identity, file validator_set_allegation.go (property C19: block-end tally of
+// allegation votes, penalty and bounty; C02/C03 for the penalty movement; C01 note on the map range).
+// Comment-only file, read by /verif/govc.
+
+package identity
+
+// ---------------------------------------------------------------- vocabulary
+//
+// Floating point is uninterpreted in the engine: the ghost macros below are the SAME terms the engine builds for
+// the code (f64_of_int = int->float64, f64_ceil = math.Ceil, int_of_f64 = float64->int), so a contract fixes which
+// comparison guards which effect and from which inputs the required count is computed, not the numeric rounding.
+//
+// reqVotes(active, o) : int(math.Ceil(float64(active) * float64(o.ValidatorVotePercentage) / float64(o.ValidatorVoteDecimals)))
+// allegPct(o)         : float64(o.AllegationPercentage) / float64(o.AllegationDecimals)
+// guiltyBy(yes, required, o)  : float64(yes)/float64(required) > allegPct(o)
+// innocentBy(no, required, o) : float64(no)/float64(required) > 1 - allegPct(o)
+//@ ghost func reqVotes(active int, o evidence.Options) int = wrap64(@int_of_f64(@f64_ceil(@f64_div(@f64_mul(@f64_of_int(active), @f64_of_int(o.ValidatorVotePercentage)), @f64_of_int(o.ValidatorVoteDecimals)))))
+//@ ghost func guiltyBy(yes int, required int, o evidence.Options) bool = @f64_lt(@f64_div(@f64_of_int(o.AllegationPercentage), @f64_of_int(o.AllegationDecimals)), @f64_div(@f64_of_int(yes), @f64_of_int(required)))
+//@ ghost func innocentBy(no int, required int, o evidence.Options) bool = @f64_lt(@f64_sub(@f64_of_int(1), @f64_div(@f64_of_int(o.AllegationPercentage), @f64_of_int(o.AllegationDecimals))), @f64_div(@f64_of_int(no), @f64_of_int(required)))
+
+// eatOK: the objects ExecuteAllegationTracker dereferences are present
+//@ ghost func eatOK(vs *ValidatorStore, ctx *ValidatorContext) bool = vs != nil && vs.store != nil && ctx != nil && ctx.EvidenceStore != nil && ctx.Govern != nil && ctx.Delegators != nil && ctx.Balances != nil && curOK(ctx.Currencies)
+
+// ---------------------------------------------------------------- assumed helpers
+
+// createAllegationEvent appends one event to vs.pendingEvents; it fills a 1-byte buffer in place
+// (`statusBytes[0] = byte(ar.Status)`: in-place []byte writes are outside the engine's subset). Assumed.
+//@ assume func (*ValidatorStore).createAllegationEvent
+//@   modifies vs.pendingEvents
+
+// Delayed unstake records (typed view of the purge prefix, key "unstake_<height><address>" built with fmt.Sprintf:
+// assumed like the other typed accessors of this package).
+// dUnHas(vs)[h][a] / dUnAmt(vs)[h][a]: an unstake of dUnAmt is recorded at height h for validator address bytes a
+//@ model dUnHas(*ValidatorStore) array[int]array[string]bool
+//@ model dUnAmt(*ValidatorStore) array[int]array[string]int
+//@ assume func (*ValidatorStore).SetDelayUnstake
+//@   modifies dUnHas(vs)[vs.lastHeight], dUnAmt(vs)[vs.lastHeight], vHas(vs.store), vVal(vs.store)
+//@   ensures err == nil ==> dUnHas(vs)[vs.lastHeight] == old(dUnHas(vs))[vs.lastHeight][str(unstake.Address) := true] && dUnAmt(vs)[vs.lastHeight] == old(dUnAmt(vs))[vs.lastHeight][str(unstake.Address) := unstake.Amount]
+//@   ensures err != nil ==> dUnHas(vs)[vs.lastHeight] == old(dUnHas(vs))[vs.lastHeight] && dUnAmt(vs)[vs.lastHeight] == old(dUnAmt(vs))[vs.lastHeight]
+
+//@ assume func (*ValidatorStore).GetDelayUnstake
+//@   modifies nothing
+//@   ensures err == nil ==> result0 != nil && fresh(result0) && dUnHas(vs)[vs.lastHeight - 1][str(addr)] && result0.Amount == dUnAmt(vs)[vs.lastHeight - 1][str(addr)] && str(result0.Address) == str(addr)
+//@   ensures err != nil ==> result0 == nil
+
+// ---------------------------------------------------------------- block-end tally
+
+// gReq(r, id, a, active, o): in the request records r, request id accuses address (bytes as string) a and its YES tally
+// crosses the allegation share of the required count computed from the active count and the options.
+// gG(r, a, active, o): some request of r does - defined by the two axioms below (definition of a ghost predicate:
+// gG(r,a,active,o) <==> exists id :: gReq(r,id,a,active,o); it keeps the existential out of the loop invariants)
+//@ ghost func gReq(r array[string]bytes, id string, a string, active int, o evidence.Options) bool = len(r[id]) != 0 && deserok(r[id], "evidence.AllegationRequest") && str(deser(r[id], "evidence.AllegationRequest").MaliciousAddress) == a && guiltyBy(yesVotes(deser(r[id], "evidence.AllegationRequest")), reqVotes(active, o), o)
+//@ ghost func gG(r array[string]bytes, a string, active int, o evidence.Options) bool
+//@ axiom forall r array[string]bytes, a string, active int, o evidence.Options :: { gG(r, a, active, o) } gG(r, a, active, o) ==> exists id string :: gReq(r, id, a, active, o)   // C19.guilty-def
+//@ axiom forall r array[string]bytes, id string, a string, active int, o evidence.Options :: { r[id], gG(r, a, active, o) } gReq(r, id, a, active, o) ==> gG(r, a, active, o)   // C19.guilty-def
+
+// valAddrOf(vs, a) / stakeAddrOf(vs, a): the Address and StakeAddress fields of the validator record stored under
+// address a in the saved state of the previous block (the record the tally reads; by the validator store's own
+// invariant valAddrOf(vs, a) == a)
+//@ ghost func valAddrOf(vs *ValidatorStore, a string) string = str(prevRec(vs, wrap64(vs.lastHeight - 1), bytes(a)).Address)
+//@ ghost func stakeAddrOf(vs *ValidatorStore, a string) string = str(prevRec(vs, wrap64(vs.lastHeight - 1), bytes(a)).StakeAddress)
+// bountyKey(g, c): balance key of the bounty program account in currency c
+//@ ghost func bountyKey(g *governance.Store, c string) string = balKey(bytes(propOpt(g).BountyProgramAddr), c)
+
+//@ func (*ValidatorStore).ExecuteAllegationTracker
+//@   requires eatOK(vs, ctx)
+//@   requires forall id string :: wfReqAt(ctx.EvidenceStore, id)                                                                       // C19.store-wf
+//@   modifies evS(ctx.EvidenceStore), evR(ctx.EvidenceStore), evT(ctx.EvidenceStore), vHas(ctx.EvidenceStore.state), vVal(ctx.EvidenceStore.state), mapof(trackerMap(ctx.EvidenceStore)), dlgV(ctx.Delegators), dlgVD(ctx.Delegators), dlgDE(ctx.Delegators), dlgVSum(ctx.Delegators), dlgDSum(ctx.Delegators), vHas(ctx.Delegators.state), vVal(ctx.Delegators.state), bal(ctx.Balances), balTotal(ctx.Balances), vHas(ctx.Balances.State), vVal(ctx.Balances.State), vs.pendingEvents, dUnHas(vs), dUnAmt(vs), vHas(vs.store), vVal(vs.store)   // C19.frame
+//@   requires evOpt(ctx.Govern).PenaltyBountyDecimals > 0 && 0 <= evOpt(ctx.Govern).PenaltyBountyPercentage && evOpt(ctx.Govern).PenaltyBountyPercentage <= evOpt(ctx.Govern).PenaltyBountyDecimals   // C19.options
+// C03: stake records only decrease, and only those of a validator found GUILTY in this call: its total, its own
+// (validator, stake address) delegation and the effective total of that stake address
+//@   ensures forall x string :: dlgV(ctx.Delegators)[x] <= old(dlgV(ctx.Delegators))[x] && dlgDE(ctx.Delegators)[x] <= old(dlgDE(ctx.Delegators))[x]   // C02.no-increase
+//@   ensures forall x string :: dlgV(ctx.Delegators)[x] < old(dlgV(ctx.Delegators))[x] ==> exists a string :: gG(old(evR(ctx.EvidenceStore)), a, activeCount, evOpt(ctx.Govern)) && x == valAddrOf(vs, a)   // C03.only-guilty-debited
+//@   ensures forall x string, y string :: dlgVD(ctx.Delegators)[x][y] < old(dlgVD(ctx.Delegators))[x][y] ==> exists a string :: gG(old(evR(ctx.EvidenceStore)), a, activeCount, evOpt(ctx.Govern)) && x == valAddrOf(vs, a) && y == stakeAddrOf(vs, a)   // C03.only-own-stake-debited
+// Bounty. The code credits floor(penalty * 10^decimals * PenaltyBountyPercentage / PenaltyBountyDecimals); under C19.options that
+// is >= 0 (proved: precondition C02.sign of Balances.AddToAddress at line 226) and <= penalty * 10^decimals (the arithmetic
+// lemma is unsat in isolation for z3 and cvc5, but the loop-invariant form "for a call that debits one validator X only, the
+// bounty account gains at most 10^decimals times what X's total loses" times out inside this function's context: not claimed).
+// Proved instead: no bounty without a penalty - if no validator total was debited, no balance changed
+//@   ensures (forall x string :: dlgV(ctx.Delegators)[x] == old(dlgV(ctx.Delegators))[x]) ==> (forall k string :: bal(ctx.Balances)[k] == old(bal(ctx.Balances))[k])   // C19.bounty-needs-penalty
+// a delayed unstake is recorded (at the current height) only for a validator found GUILTY in this call
+//@   ensures forall h int, a string :: dUnHas(vs)[h][a] != old(dUnHas(vs))[h][a] || dUnAmt(vs)[h][a] != old(dUnAmt(vs))[h][a] ==> h == vs.lastHeight && (exists acc string :: gG(old(evR(ctx.EvidenceStore)), acc, activeCount, evOpt(ctx.Govern)) && a == valAddrOf(vs, acc))   // C19.delayed-unstake
+// CLAIMS (the property demands them, the code does not deliver them; see the report):
+// every validator frozen by this call was penalised: its own stake went down by exactly the amount of the delayed unstake recorded for it
+//@   claims forall a string :: evS(ctx.EvidenceStore)[a] != old(evS(ctx.EvidenceStore))[a] ==> dUnHas(vs)[vs.lastHeight][valAddrOf(vs, a)] && dlgVD(ctx.Delegators)[valAddrOf(vs, a)][stakeAddrOf(vs, a)] == old(dlgVD(ctx.Delegators))[valAddrOf(vs, a)][stakeAddrOf(vs, a)] - dUnAmt(vs)[vs.lastHeight][valAddrOf(vs, a)]   // C19.guilty-penalised
+// the verdict rests on votes of CURRENTLY active validators only
+//@   claims forall a string :: evS(ctx.EvidenceStore)[a] != old(evS(ctx.EvidenceStore))[a] ==> exists id string :: gReq(old(evR(ctx.EvidenceStore)), id, a, activeCount, evOpt(ctx.Govern)) && (forall j int :: 0 <= j && j < old(len(reqRec(ctx.EvidenceStore, id).Votes)) ==> old(activeVal(ctx.EvidenceStore, reqRec(ctx.EvidenceStore, id).Votes[j].Address)))   // C19.votes-of-active-only
+// C03: no balance is debited; only the bounty program account (currency OLT, or the zero currency if OLT is not registered) is credited
+//@   ensures forall k string :: bal(ctx.Balances)[k] >= old(bal(ctx.Balances))[k]                                                     // C03.no-balance-debited
+//@   ensures forall k string :: bal(ctx.Balances)[k] != old(bal(ctx.Balances))[k] ==> k == bountyKey(ctx.Govern, "OLT") || k == bountyKey(ctx.Govern, "")   // C03.only-bounty-credited
+// a validator gets a (new) suspicious-validator record only by a GUILTY verdict: some request of the entry state accuses
+// it with a YES tally that crosses the share; the record is a frozen BYZANTINE_FAULT record
+//@   ensures forall a string :: evS(ctx.EvidenceStore)[a] != old(evS(ctx.EvidenceStore))[a] ==> guiltyNowK(ctx.EvidenceStore, a)   // C19.guilty-frozen
+//@   ensures forall a string :: evS(ctx.EvidenceStore)[a] != old(evS(ctx.EvidenceStore))[a] ==> gG(old(evR(ctx.EvidenceStore)), a, activeCount, evOpt(ctx.Govern))   // C19.guilty-only-by-votes
+// a request that is still readable kept its accused, reporter and votes; its status changed only to the verdict its tally justifies
+//@   ensures forall id string :: reqHas(ctx.EvidenceStore, id) ==> old(reqHas(ctx.EvidenceStore, id)) && sameReq(reqRec(ctx.EvidenceStore, id), old(reqRec(ctx.EvidenceStore, id)))   // C19.requests-stable
+//@   ensures forall id string :: reqHas(ctx.EvidenceStore, id) && reqRec(ctx.EvidenceStore, id).Status != old(reqRec(ctx.EvidenceStore, id)).Status ==> (reqRec(ctx.EvidenceStore, id).Status == evGUILTY() && old(guiltyBy(yesVotes(reqRec(ctx.EvidenceStore, id)), reqVotes(activeCount, evOpt(ctx.Govern)), evOpt(ctx.Govern)))) || (reqRec(ctx.EvidenceStore, id).Status == evINNOCENT() && old(innocentBy(noVotes(reqRec(ctx.EvidenceStore, id)), reqVotes(activeCount, evOpt(ctx.Govern)), evOpt(ctx.Govern))))   // C19.verdict-follows-votes
+//@   invariant loop1: forall id string :: reqHas(ctx.EvidenceStore, id) ==> old(reqHas(ctx.EvidenceStore, id)) && sameReq(reqRec(ctx.EvidenceStore, id), old(reqRec(ctx.EvidenceStore, id)))   // C19.requests-stable
+//@   invariant loop1: forall id string :: reqHas(ctx.EvidenceStore, id) && reqRec(ctx.EvidenceStore, id).Status != old(reqRec(ctx.EvidenceStore, id)).Status ==> (reqRec(ctx.EvidenceStore, id).Status == evGUILTY() && old(guiltyBy(yesVotes(reqRec(ctx.EvidenceStore, id)), reqVotes(activeCount, evOpt(ctx.Govern)), evOpt(ctx.Govern)))) || (reqRec(ctx.EvidenceStore, id).Status == evINNOCENT() && old(innocentBy(noVotes(reqRec(ctx.EvidenceStore, id)), reqVotes(activeCount, evOpt(ctx.Govern)), evOpt(ctx.Govern))))   // C19.verdict-follows-votes
+//@   invariant loop1: forall a string :: evS(ctx.EvidenceStore)[a] != old(evS(ctx.EvidenceStore))[a] ==> guiltyNowK(ctx.EvidenceStore, a)   // C19.guilty-frozen
+//@   invariant loop1: forall a string :: evS(ctx.EvidenceStore)[a] != old(evS(ctx.EvidenceStore))[a] ==> gG(old(evR(ctx.EvidenceStore)), a, activeCount, evOpt(ctx.Govern))   // C19.guilty-only-by-votes
+//@   invariant loop1: decimal != nil && big(decimal) == @big_exp(10, currency.Decimal) && big(decimal) > 0 && ((currency.Name == "" && currency.Decimal == 0) || (has(ctx.Currencies.nameMap, "OLT") && currency == ctx.Currencies.nameMap["OLT"]))   // C03.only-bounty-credited
+//@   invariant loop1: (forall x string :: dlgV(ctx.Delegators)[x] == old(dlgV(ctx.Delegators))[x]) ==> (forall k string :: bal(ctx.Balances)[k] == old(bal(ctx.Balances))[k])   // C19.bounty-needs-penalty
+//@   invariant loop1: forall x string :: dlgV(ctx.Delegators)[x] <= old(dlgV(ctx.Delegators))[x] && dlgDE(ctx.Delegators)[x] <= old(dlgDE(ctx.Delegators))[x]   // C02.no-increase
+//@   invariant loop1: forall x string :: dlgV(ctx.Delegators)[x] < old(dlgV(ctx.Delegators))[x] ==> exists a string :: gG(old(evR(ctx.EvidenceStore)), a, activeCount, evOpt(ctx.Govern)) && x == valAddrOf(vs, a)   // C03.only-guilty-debited
+//@   invariant loop1: forall x string, y string :: dlgVD(ctx.Delegators)[x][y] < old(dlgVD(ctx.Delegators))[x][y] ==> exists a string :: gG(old(evR(ctx.EvidenceStore)), a, activeCount, evOpt(ctx.Govern)) && x == valAddrOf(vs, a) && y == stakeAddrOf(vs, a)   // C03.only-own-stake-debited
+//@   invariant loop1: forall h int, a string :: dUnHas(vs)[h][a] != old(dUnHas(vs))[h][a] || dUnAmt(vs)[h][a] != old(dUnAmt(vs))[h][a] ==> h == vs.lastHeight && (exists acc string :: gG(old(evR(ctx.EvidenceStore)), acc, activeCount, evOpt(ctx.Govern)) && a == valAddrOf(vs, acc))   // C19.delayed-unstake
+//@   invariant loop1: forall k string :: bal(ctx.Balances)[k] >= old(bal(ctx.Balances))[k]                                              // C03.no-balance-debited
+//@   invariant loop1: forall k string :: bal(ctx.Balances)[k] != old(bal(ctx.Balances))[k] ==> k == bountyKey(ctx.Govern, "OLT") || k == bountyKey(ctx.Govern, "")   // C03.only-bounty-credited
+//@   invariant loop2: 0 <= $i && $i <= len(ar.Votes) && 0 <= yesCount && yesCount <= $i && 0 <= noCount && noCount <= $i && yesCount == cntCh(ar.Votes, $i, evYES()) && noCount == cntCh(ar.Votes, $i, evNO())   // C19.tally-count
+//@   invariant loop3: true
+
+// ---------------------------------------------------------------- block-begin check of missed votes
+
+// CheckMaliciousValidators rebuilds vs.maliciousValidators and freezes (MISSED_REQUIRED_VOTES) active validators whose
+// cumulative vote count is below the minimum. It only writes suspicious-validator records; a frozen validator stays frozen.
+//@ func (*ValidatorStore).CheckMaliciousValidators
+//@   requires vs != nil && vs.store != nil && es != nil && govern != nil
+//@   modifies vs.maliciousValidators, evS(es), vHas(es.state), vVal(es.state)
+//@   ensures forall a string :: evS(es)[a] != old(evS(es))[a] ==> len(evS(es)[a]) != 0 && deserok(evS(es)[a], "evidence.LastValidatorHistory") && deser(evS(es)[a], "evidence.LastValidatorHistory").ReleaseAt == nil && deser(evS(es)[a], "evidence.LastValidatorHistory").Status == evMISSED()   // C19.frozen-stays-frozen
+// CLAIM: a validator frozen for a BYZANTINE_FAULT keeps that record (status and freeze time) until it is released
+//@   claims forall a string :: old(guiltyNowK(es, a)) ==> guiltyNowK(es, a)                                                             // C19.no-downgrade
+// CLAIM: after the check every frozen validator is in vs.maliciousValidators (the set GetEndBlockUpdate uses to drop
+// validators from the active set). The two early returns (height <= BlockVotesDiff, no block time) leave the set empty.
+//@   claims forall a bytes :: frozen(es, a) ==> has(vs.maliciousValidators, addrStr(str(a)))                                            // C19.frozen-dropped
+//@   invariant iter1: true
+//@   invariant loop1: isnew(addresses)
+//@   invariant loop2: isnew(addresses)
+//@   invariant loop2: forall a string :: evS(es)[a] != old(evS(es))[a] ==> len(evS(es)[a]) != 0 && deserok(evS(es)[a], "evidence.LastValidatorHistory") && deser(evS(es)[a], "evidence.LastValidatorHistory").ReleaseAt == nil && deser(evS(es)[a], "evidence.LastValidatorHistory").Status == evMISSED()   // C19.frozen-stays-frozen
